@@ -222,6 +222,14 @@ def replay(case):
     res = Result()
     stats = {'rows_skipped': 0, 'triples': 0, 'evals': 0, 'two_check_skips': 0, 'completed_accepted': 0}
     gkw = {k: core.dec(x) for k, x in case.get('gkw', {}).items()}
+    if gkw:
+        # a disagreement under an option may need the calls made before it (a table cached by an earlier option): the
+        # module's whole sequence of evaluations is repeated first, in this still untouched process
+        r2 = work((name, 'quick'))
+        out = [dict(v, sig=None) for v in r2['violations'] if v['case'].get('clause') == case.get('clause')
+               and v['case'].get('generator') == case.get('generator') and v['case'].get('gkw') == case.get('gkw')][:1]
+        if out:
+            return out
     for gname, shape, opts in c05_shapes.rows(name, m):
         if gname == case['generator']:
             o2 = dict(opts)
